@@ -125,6 +125,11 @@ func soundOne(c *vh.Ctx, cs matchCase, hasVars bool) {
 // C01: soundness of Match over (S1) all small triples and (S2) pattern-directed messages.
 func C01(c *vh.Ctx) {
 	if c.Replay != "" {
+		var gt goTypedCase
+		if c.LoadReplay(&gt) == nil && gt.Kind != "" {
+			goTypedOne(c, "C01", gt)
+			return
+		}
 		var cs matchCase
 		if err := c.LoadReplay(&cs); err != nil {
 			c.NotExhaustive("cannot load replay: " + err.Error())
@@ -138,7 +143,7 @@ func C01(c *vh.Ctx) {
 	c.Bound("S1_pattern_nodes_max", pmax)
 	c.Bound("S1_message_nodes_max", mmax)
 	c.Rule("S1: every (pattern,message,bindings) with |P|<=bound, |M|<=bound over atoms {1,2,\"a\",true,null}, keys {a,b}, variables " + fmt.Sprint(c01Vars) +
-		", bindings = {} / each variable x value list / each pair x short list. S2 (pattern-directed): every pattern with variables up to a larger bound over a two-letter alphabet (incl. inequality variables), every assignment of planted values / inequality bounds, messages = the instantiated pattern plus every combination of up to k edits (insertions of extra keys/elements incl. near-copies, atom changes, dropped keys, dropped or duplicated array elements), bindings = the inequality bounds plus nothing / each variable pre-bound to its planted value, to generalisations of it, or to conflicting values; the unedited core also wrapped 1-4 levels deep. S3 (wide arrays): pattern arrays of 2-5 structured elements with distinct variables (maps, arrays, mixed; with and without an array variable; bare and under a key) against message arrays with as many or one more ambiguous elements. S5 (bound arrays): a variable given, or bound earlier in the same match, to a value holding an array of 2-3 members (scalars, maps, arrays, repeated members), against message arrays with fewer members that cover several of them. S4 (look-alikes): scalars of different JSON types that print alike (1 / \"1\", true / \"true\", null / \"null\", 0 / false / \"\") as array members, map values, property-variable values and bound values. Enumeration is an odometer (duplicate-free); non-trivial = Match returned >=1 binding set for a pattern that has variables.")
+		", bindings = {} / each variable x value list / each pair x short list. S2 (pattern-directed): every pattern with variables up to a larger bound over a two-letter alphabet (incl. inequality variables), every assignment of planted values / inequality bounds, messages = the instantiated pattern plus every combination of up to k edits (insertions of extra keys/elements incl. near-copies, atom changes, dropped keys, dropped or duplicated array elements), bindings = the inequality bounds plus nothing / each variable pre-bound to its planted value, to generalisations of it, or to conflicting values; the unedited core also wrapped 1-4 levels deep. S3 (wide arrays): pattern arrays of 2-5 structured elements with distinct variables (maps, arrays, mixed; with and without an array variable; bare and under a key) against message arrays with as many or one more ambiguous elements. S5 (bound arrays): a variable given, or bound earlier in the same match, to a value holding an array of 2-3 members (scalars, maps, arrays, repeated members), against message arrays with fewer members that cover several of them. S7 (operator-like names): variables named ?!n ?=n ?<>n ?=<n ?>>n ?< ?!= ?!<n ?<=n in patterns of up to 3 nodes, with every binding of bindingsFor, against messages of up to 3 nodes. S6 (Go-typed numbers): every small pair that contains a number, and bound variables / inequality bounds, with the numbers of the message, the pattern, the bindings or all of them typed int, int64, int32 or float32: no result beyond those of the float64 rendering. S4 (look-alikes): scalars of different JSON types that print alike (1 / \"1\", true / \"true\", null / \"null\", 0 / false / \"\") as array members, map values, property-variable values and bound values. Enumeration is an odometer (duplicate-free); non-trivial = Match returned >=1 binding set for a pattern that has variables.")
 	pats := ps.UpTo(pmax)
 	msgs := ms.UpTo(mmax)
 	if c.Shard == 0 {
@@ -162,6 +167,30 @@ func C01(c *vh.Ctx) {
 		}
 	}
 	c01S2(c)
+	// S7: variables whose names begin with operator characters without spelling one of the five relations
+	// (and some that do, in odd ways): what is not an inequality variable is an ordinary variable
+	{
+		opSpec := &jgen.Spec{Atoms: []interface{}{1.0, 2.0, "a"}, Vars: []string{"?!n", "?=n", "?<>n", "?=<n", "?>>n", "?<", "?!=", "?!<n", "?<=n"}, Keys: []string{"a", "b"}, MaxArr: 2}
+		opMsgs := (&jgen.Spec{Atoms: []interface{}{1.0, 2.0, "a"}, Keys: []string{"a", "b"}, MaxArr: 2}).UpTo(3)
+		for i, p := range opSpec.UpTo(3) {
+			if !c.Mine(uint64(i)) {
+				continue
+			}
+			vs := map[string]bool{}
+			rmatch.Vars(p, vs)
+			if len(vs) == 0 {
+				continue
+			}
+			for _, b := range bindingsFor(p) {
+				for _, m := range opMsgs {
+					soundOne(c, matchCase{p, m, b}, true)
+					c.Count("S7_evaluations", 1)
+				}
+			}
+		}
+	}
+	// S6: numbers typed as a Go host types them
+	goTypedFamily(c, "C01")
 	// S5: bound variables holding arrays
 	for i, cs := range boundArrayCases() {
 		if c.Mine(uint64(i)) {
